@@ -157,5 +157,13 @@ def check(ctx):
     reentrancy(ctx, prog)
     # environ only written on the child side (C12.M2) and children close every foreign descriptor (C11.X2)
     c11.closeall_rules(ctx, prog)
+    R.start_closure(ctx, prog, "C20.H6")     # a stale descriptor number in a handle would close another thread's descriptor later
+    for name in ("wait", "wait3", "wait4", "waitid"):
+        for F2, n2 in callsites(prog, name):
+            ctx.ob("C20.H7", site_of(F2, n2), "children are reaped by pid only (never 'any child'), so one handle cannot steal another's status", False, None)
+    for F2, n2 in callsites(prog, "waitpid"):
+        a0 = strip(n2["c"][1])
+        ctx.ob("C20.H7", site_of(F2, n2), "children are reaped by pid only (never 'any child'), so one handle cannot steal another's status",
+               const_of(prog, a0) is None, {"pid_argument": expr_str(a0)})
     res, F, I = c12.check_m1(ctx, "posix-mt")
     c12.check_m2(ctx, prog, res, F)
